@@ -1,6 +1,13 @@
 pub mod chain;
 pub mod events;
+pub mod e1;
 pub mod gen;
+pub mod model;
+pub mod panics;
+pub mod world;
+pub mod node;
+pub mod snap;
+pub mod tower;
 pub mod pure_c07f;
 pub mod pure_c17;
 pub mod pure_c19;
